@@ -386,7 +386,7 @@ class VolSphere2Intersection(VolSDFIntersection[VolSphere, VolSphere]):
             return VolSphere.calc_volume(min(r1, r2))
 
         part1 = (np.pi / (12 * d)) * (r1 + r2 - d) ** 2
-        part2 = d**2 + 2 * d * r1 - 3 * r1**2 + 2 * d * r2 - 3 * r2**2 + 6 * r1 * r2
+        part2 = d**2 + 2 * d * (r1 + r2) - 3 * (r1 - r2) ** 2
         return part1 * part2
 
 
